@@ -236,6 +236,27 @@ class World:
     def node_at(self, ref: dict[str, Any]) -> Any:
         return self.builder.node_at(ref)
 
+    def op_derive(self, op: dict[str, Any]) -> str:
+        """A new tree that keeps all but one child object of an existing one (dataclasses.replace): the same child
+        objects are then reachable under different siblings."""
+        import dataclasses
+
+        base = self.node_at(op["n"])
+        kw = {}
+        for fname, sub in op["ch"].items():
+            if isinstance(sub, list):
+                kw[fname] = tuple(self.builder.build(x) for x in sub)
+            else:
+                kw[fname] = None if sub is None else self.builder.build(sub)
+        try:
+            o = dataclasses.replace(base, **kw)
+        except Exception as e:  # noqa: BLE001
+            raise SkipOp(f"derive failed {e}") from None
+        self.nodes[op["out"]] = o
+        self.builder.put(op["out"], "node", o, "m0")
+        self.builder.discover()
+        return "ok"
+
     def op_compile(self, op: dict[str, Any]) -> str:
         text, how = op["text"], op["how"]
         if how == "validate":
@@ -593,6 +614,25 @@ class Gen:
                 r.shuffle(items)
                 spec = {"c": "Seq", "p": {}, "ch": {"items": items}, "o": "no"}
             do({"op": "build", "spec": spec, "out": f"mirror{i}"})
+        # derived trees: same child objects under other siblings (a nested matcher meets one node object again
+        # with other captured values)
+        for i in range(r.choice([0, 1, 2])):
+            cands = [n for n, o in w.nodes.items() if RW.cname(o) in ("Pair", "Mixed", "Seq", "SeqPlus") and RW.children_of(o)]
+            if not cands:
+                break
+            bn = r.choice(cands)
+            b = w.nodes[bn]
+            cf = [f for f in U.CHILD_FIELDS[RW.cname(b)] if f.kind in ("opt", "child", "tuple")]
+            f = r.choice(cf)
+            sib = [c for _f, _i, c in RW.children_of(b)]
+            src = RW.spec_of(r.choice(sib))
+            newc = src if r.random() < 0.6 else self.rwg.mutate(src)
+            if f.kind == "tuple":
+                cur = [RW.spec_of(c) for c in getattr(b, f.name)]
+                ch = {f.name: (cur[:-1] + [newc]) if cur and r.random() < 0.5 else cur + [newc]}
+            else:
+                ch = {f.name: newc}
+            do({"op": "derive", "n": {"h": bn, "path": []}, "ch": ch, "out": f"derived{i}"})
         ws = self.r("ws")
         nm = 0
         pending: list[str] = []
